@@ -345,6 +345,21 @@ pub fn gen_c06(rng: &mut Prng, thorough: bool, out: &mut Out) {
                 let agg_dup = agg_dlog(g1, scheme, &dup);
                 v(out, &agg_dup, &dup);
             }
+            // message patterns x key patterns: all on one message, two blocks, repeated key
+            for &n in &[2usize, 3, 5] {
+                for pat in 0..3 {
+                    let msgs: Vec<Vec<u8>> = (0..n).map(|i| match pat { 0 => b"m".to_vec(), 1 => vec![(i % 2) as u8], _ => vec![i as u8] }).collect();
+                    let k0 = rng.scalar();
+                    for keypat in 0..3 {
+                        let sks: Vec<(RScalar, Vec<u8>)> = (0..n).map(|i| (match keypat { 0 => rng.scalar(), 1 => k0, _ => if i % 2 == 0 { k0 } else { -k0 } }, msgs[i].clone())).collect();
+                        let agg = agg_dlog(g1, scheme, &sks);
+                        out.case(g1, &format!("agg_verify c{} p{} {}", sc, hs(&agg), pairs_tok(&sks)));
+                        let mut drop1 = sks.clone();
+                        drop1.pop();
+                        out.case(g1, &format!("agg_verify c{} p{} {}", sc, hs(&agg), pairs_tok(&drop1)));
+                    }
+                }
+            }
             // fewer than two, mixed
             let sk = rng.scalar();
             let sd = sig_dlog(g1, scheme, &sk, b"one");
@@ -910,6 +925,22 @@ pub fn gen_c04(rng: &mut Prng, _thorough: bool, out: &mut Out) {
                     out.case(g1, &format!("agg_verify c{} p{} {}", sc, hs(&agg_o), pairs_tok(&p)));
                 }
                 out.case(g1, &format!("agg_verify c{} p00 {}", sc, pairs_tok(&sks)));
+                // all signers on ONE message, with the identity key inserted at each position next to a
+                // valid remainder (the accumulated key is then not the identity)
+                let same: Vec<(RScalar, Vec<u8>)> = (0..n).map(|_| (rng.scalar(), b"same message".to_vec())).collect();
+                let agg_same = agg_dlog(g1, scheme, &same);
+                for k in 0..=n {
+                    let mut p = same.clone();
+                    p.insert(k, (RScalar::ZERO, b"same message".to_vec()));
+                    out.case(g1, &format!("agg_verify c{} p{} {}", sc, hs(&agg_same), pairs_tok(&p)));
+                }
+                // two keys that cancel (k, -k) on one message: accumulated key of the pair is the identity
+                let kk = rng.scalar();
+                let mut cancel = same.clone();
+                cancel.push((kk, b"same message".to_vec()));
+                cancel.push((-kk, b"same message".to_vec()));
+                out.case(g1, &format!("agg_verify c{} p{} {}", sc, hs(&agg_dlog(g1, scheme, &cancel)), pairs_tok(&cancel)));
+                out.case(g1, &format!("agg_verify c{} p{} {}", sc, hs(&agg_same), pairs_tok(&cancel)));
             }
             // proofs of knowledge
             let (x, y) = (rng.scalar(), rng.scalar());
